@@ -226,6 +226,16 @@ Arguments is_run {C}.
 Arguments is_get {C}.
 Arguments fs_lookup {C}.
 
+(* A Monte-Carlo work package (MC_GeoPHIRES3.work_package executed n times in one process): each iteration writes its
+   own input file p (base text + sampled lines = content c), asks a NEW caching client for it, deletes the file.
+   [m] = number of the client the first iteration creates. *)
+Definition mc_iter {C : Type} (m p : nat) (c : C) : list (op C) := [Write p c; NewClient true; Get m p; Delete p].
+Fixpoint mc_package {C : Type} (m : nat) (ps : list nat) (c : C) : list (op C) :=
+  match ps with
+  | [] => []
+  | p :: r => mc_iter m p c ++ mc_package (S m) r c
+  end.
+
 (* ------------------------------------------------------------------------------------------------
    Concrete instance used by the correspondence: contents and results are numbers, the result of a
    content is the content itself (so a returned result names the content it was computed from),
